@@ -337,7 +337,8 @@ class TextMessageProtocol(HDAP):
         if self.has_option and self.option_data:
             repre += f"[OPTION: {self.option_data}] "
         if self.text_data:
-            repre += f"[TEXT: {self.text_data.decode('utf-16-le')}] "
+            # text as received may be no valid UTF-16 (lone surrogate, odd length), repr must not raise on it
+            repre += f"[TEXT: {self.text_data.decode('utf-16-le', errors='replace')}] "
         if self.short_data:
             repre += f"[SHORT DATA: {self.short_data.hex()}] "
         return repre
